@@ -238,16 +238,14 @@ fn('dsplib::dot', M, sig='dsplib::cmplx_t (const dsplib::arr_cmplx &, const dspl
 # p-norm: (sum_k |x[k]|^p)^(1/p); p = 1 and p = 2 through sum(abs) and sqrt(sum(abs2))
 PW = _z3.Function('powi', _z3.RealSort(), _z3.IntSort(), _z3.RealSort())
 LIBM['PW'] = PW
-fn('dsplib::power', M, sig='dsplib::arr_real (const dsplib::arr_real &, int)', key='power(arr_real,int)#elementwise', serves=['C17'],
-   trusted=True, pure=True, extra_env=LIBM, verify=False,
-   notes='assumed: power(x, n)[k] = x[k]^n (spec function PW); the generic _power template is not lowered yet',
+PWI = 'If(n == 2, x[k] * x[k], If(n == -1, 1 / x[k], If(n == 0, 1, If(n == 1, x[k], POW(x[k], ToReal(n))))))'
+fn('dsplib::power', M, sig='dsplib::arr_real (const dsplib::arr_real &, int)', key='power(arr_real,int)', serves=['C17', 'C05'], pure=True, extra_env=LIBM, throws='False',
    ensures=[('length', 'result.len == x.len'),
-            ('elementwise', 'forall(lambda k: Implies(And(0 <= k, k < x.len), result[k] == PW(x[k], n)))'),
-            ('square', 'Implies(n == 2, forall(lambda k: Implies(And(0 <= k, k < x.len), result[k] == x[k]*x[k])))')])
+            ('elementwise', 'forall(lambda k: Implies(And(0 <= k, k < x.len), result[k] == %s))' % PWI)])
 fn('dsplib::norm', M, sig='(const dsplib::arr_real &, int)', key='norm(arr_real,p)', serves=['C17', 'C05'], pure=True, extra_env=LIBM,
    requires=[('order', 'p >= 1')],
    ghost={'S': 'x'}, ghost_on=[('call:sum', None, {'S': 'arg0'})],
-   ensures=[('terms', 'forall(lambda k: Implies(And(0 <= k, k < x.len), S[k] == If(p == 1, fabs(x[k]), If(p == 2, x[k]*x[k], PW(fabs(x[k]), p)))))'),
+   ensures=[('terms', 'forall(lambda k: Implies(And(0 <= k, k < x.len), S[k] == If(p == 1, fabs(x[k]), If(p == 2, x[k]*x[k], POW(fabs(x[k]), ToReal(p))))))'),
             ('length', 'S.len == x.len'),
             ('root', 'result == If(p == 1, SUMR(data(S), x.len), If(p == 2, SQRT(SUMR(data(S), x.len)), POW(SUMR(data(S), x.len), 1 / ToReal(p))))')])
 
